@@ -16,6 +16,7 @@ from sklearn.utils.multiclass import class_distribution
 from sklearn.utils import check_random_state
 from sktime.classification.base import BaseClassifier
 from sktime.classification.dictionary_based import IndividualBOSS
+from sktime.utils.validation import check_n_jobs
 from sktime.utils.validation.panel import check_X
 from sktime.utils.validation.panel import check_X_y
 
@@ -318,7 +319,7 @@ class ContractableBOSS(BaseClassifier):
         correct = 0
         required_correct = int(lowest_acc * train_size)
 
-        if self.n_jobs > 1:
+        if check_n_jobs(self.n_jobs) > 1:
             c = Parallel(n_jobs=self.n_jobs)(
                 delayed(boss._train_predict)(
                     i,
